@@ -76,7 +76,19 @@ P("C09",
   technique="grammar-based PBT with rule-violation operators: valid documents from a grammar + 0..2 labelled violating edits; accept iff zero edits (validity known by construction); native fuzz over policy JSON in thorough",
   level_text="Exploration: one mutation operator per structural rule, applied to generated valid documents of both kinds, fed as Go values and as JSON files; accepted documents are additionally checked to enforce integrity.",
   level_note="Validity of every component is known by construction; the harness never parses DNs or scopes to decide.",
-  health={"edits=0": 100, "edits=1": 100, "edits=2": 50, "kind=oci": 100, "kind=blob": 100},
+  health=dict({"edits=0": 1000, "edits=1": 1000, "edits=2": 500, "kind=oci": 1000, "kind=blob": 1000, "outcome=accept": 1000, "outcome=reject": 1000,
+               "via=value": 1000, "via=verifier": 1000, "via=json": 1000, "via=json-file": 500,
+               "family=grammar": 1000, "family=assembled": 1000, "family=fuzz-seeds": 100,
+               "assembled/model=valid": 500, "assembled/model=invalid": 500, "single-edit=exactly-its-rule": 1000},
+              # every rule-violating operator of the statement must have been applied
+              **{"op=" + o: 100 for o in (
+                  "version-empty version-unsupported no-statements name-duplicate name-empty level-unknown level-empty "
+                  "override-on-skip override-integrity override-skip-non-revocation verify-timestamp-unknown "
+                  "nonskip-no-stores nonskip-no-identities skip-with-stores skip-with-identities "
+                  "store-no-colon store-unknown-type store-bad-name wildcard-identity-with-company x509-empty-value "
+                  "dn-unparsable dn-missing-c dn-missing-st dn-missing-o dn-duplicate-attribute dn-multivalued-rdn dn-hex-value "
+                  "ids-overlap-equal ids-overlap-subset scope-invalid wildcard-scope-with-company scope-shared "
+                  "two-globals global-statement-skip").split()}),
   fuzz=[{"name": "FuzzC09_PolicyJSON", "seconds": 120}])
 
 P("C10",
@@ -127,7 +139,14 @@ P("C15",
   technique="stateful model-based PBT (rapid state machine Set/Get/Corrupt/Reopen) against a map model with own entry decoder; native fuzz of cache files in thorough",
   level_text="Exploration over operation sequences on confusable URL sets with fresh/expired base and delta CRLs and every corruption operator; sandbox-escape and file-name invariants after every step.",
   level_note="Freshness classes keep >= 1 h margins from the wall clock; trusts crypto/x509 CRL parsing for the harness's own decoder.",
-  health={"op=set": 100, "op=get-hit": 50, "op=get-miss": 50, "op=corrupt": 50, "expired": 20, "delta": 20},
+  health={"op=set": 100, "op=get-hit": 50, "op=get-miss": 50, "op=corrupt": 50, "op=reopen": 50, "expired": 20, "delta": 20,
+          "expired=delta-only": 10, "expired=base-only": 10, "set-overwrite": 50, "corrupt-still-decodes": 20, "corrupt-bundle-returned": 10,
+          "seq:touches>=2-urls": 100, "seq:url-is-file-name-of-member": 20,
+          "url=plain": 20, "url=case": 20, "url=slash": 20, "url=pct": 20, "url=unicode": 20, "url=traversal": 20, "url=abs-path": 20,
+          "url=empty": 20, "url=long": 20, "url=hex-of-other": 20,
+          "corrupt=trunc-boundary": 5, "corrupt=trunc-random": 5, "corrupt=flip-json": 5, "corrupt=flip-base64": 5, "corrupt=flip-der": 5,
+          "corrupt=swap-fields": 5, "corrupt=rename-field": 5, "corrupt=foreign-json": 5, "corrupt=empty": 5, "corrupt=dir": 5,
+          "entry-mutation=trunc": 100, "entry-mutation=flip": 100, "entry-mutation=derflip": 100, "entry-get=bundle": 20, "entry=malformed": 100},
   fuzz=[{"name": "FuzzC15_CacheEntry", "seconds": 120}])
 
 P("C16",
@@ -183,7 +202,12 @@ P("C20",
   technique="stateful model-based PBT (rapid state machine Install/Uninstall/Get/List) over a real plugin root with generated script plugins; own semver-precedence implementation; tree-snapshot oracle and metamorphic source-shape relations",
   level_text="Exploration over install/uninstall histories with versions chosen to separate precedence from string order and source shapes (file/dir, candidates, extra files, sub-directories); refused installs must leave the tree identical.",
   level_note="Plugins are generated shell scripts (the manager only needs an executable printing metadata); trusts the harness's semver implementation (written from semver.org section 11).",
-  health={"op=install": 100, "install=refused": 30, "install=replaced": 20, "src=dir": 30, "src=file": 30, "dir-extra-entries": 20, "op=uninstall": 20},
+  health={"op=install": 100, "install=refused": 30, "install=replaced": 20, "install=fresh": 30, "over-existing": 30,
+          "src=dir": 30, "src=file": 30, "dir-extra-entries": 20, "dir-subdir": 20, "dir-subdir-named-like-source": 5,
+          "dir-nested-name-collision": 10, "dir-nonexec-candidate": 10, "dir-two-candidates": 10,
+          "op=uninstall": 20, "uninstall=installed": 10, "op=get": 20, "op=list": 20,
+          "version-relation=lt": 10, "version-relation=eq": 10, "version-relation=gt": 10, "version-relation=invalid": 10,
+          "shape:subdirs": 10, "shape:extra-files": 10},
   timeout={"quick": 900, "thorough": 5400})
 
 
